@@ -72,6 +72,8 @@ fn alphabet(name: &str) -> &'static [&'static str] {
     match name {
         "calc" => &["1", "23", "+", "-", "*", "/", "(", ")", " "],
         "pos" => &["ab", "é", "=", "+", "\"", "x y", " ", "\n", "# c\n", "7", "k"],
+        "inc_a" => &["h", "ab", ",", "[", "]", "12", " "],
+        "inc_b" => &["12", "AB", "C", " ", "7"],
         _ => &["a", "b", "c", "1", "23", "x", "yz", "(", ")", ";", " "],
     }
 }
